@@ -55,7 +55,7 @@ Fixpoint alist_set {A} (k : string) (v : A) (l : list (string * A)) : list (stri
 Fixpoint alist_del {A} (k : string) (l : list (string * A)) : list (string * A) :=
   match l with
   | [] => []
-  | (k', v') :: l' => if String.eqb k k' then l' else (k', v') :: alist_del k l'
+  | (k', v') :: l' => if String.eqb k k' then alist_del k l' else (k', v') :: alist_del k l'
   end.
 Definition alist_mem {A} (k : string) (l : list (string * A)) : bool :=
   match alist_get k l with Some _ => true | None => false end.
